@@ -6,8 +6,9 @@ package hpack
 // output is parsed by the RFC 7541 reference decoder and fed to the real
 // Decoder at once, so that the effect of each single sensitive field on the
 // wire, on the encoder table and on the decoder table is observed in
-// isolation. Alphabet: 5 (name,value) pairs x {sensitive, not}, End, and three
-// table sizes.
+// isolation. Alphabet: 5 (name,value) pairs x {sensitive, not}, the empty value
+// in every table-match situation (none, dynamic name, dynamic full, static name,
+// static full), End, and three table sizes.
 
 import (
 	"fmt"
@@ -238,6 +239,9 @@ func c05Apply(w *vx.W, s *c01State, op c01Op) bool {
 	if f.Sensitive {
 		pre = "S"
 	}
+	if f.Value == "" {
+		pre += "/empty-value"
+	}
 	w.Outcome(pre + "/" + sit + "/" + c05ShortKind(kind))
 	if f.Sensitive {
 		w.Distinct(fmt.Sprintf("%s|%x|%s", sit, out, c01RefEntsString(&s.ref)))
@@ -250,9 +254,12 @@ func TestVerif_C05(t *testing.T) {
 		ops := c01Ops(
 			"F(:method=GET)", "S(:method=GET)", "F(cookie=v)", "S(cookie=v)", "F(k=v)", "S(k=v)", "F(k=w)", "S(k=w)",
 			"F(h=aaaaaaaa)", "S(h=aaaaaaaa)",
+			// the empty value in every match situation: (k,"") none / dynamic name / dynamic full match,
+			// (cookie,"") and (:authority,"") identical static entries, (:method,"") static name only
+			"F(k=)", "S(k=)", "S(cookie=)", "S(:authority=)", "S(:method=)",
 			"End", "Peer(0)", "Peer(70)", "Peer(4096)")
 		if !c.Quick() {
-			ops = append(ops, c01Ops("F(=)", "S(=)", "S(accept-charset=u)", "Peer(33)")...)
+			ops = append(ops, c01Ops("F(=)", "S(=)", "F(cookie=)", "S(accept-charset=u)", "Peer(33)")...)
 		}
 		var labels []string
 		for _, o := range ops {
@@ -260,7 +267,7 @@ func TestVerif_C05(t *testing.T) {
 		}
 		depth := 1 << 20 // until the reachable state space is closed
 		c.Rule(fmt.Sprintf("breadth-first search to closure (depth bound %d) over every sequence of operations {%s} on one real Encoder + one real Decoder + an RFC 7541 reference decoder, states deduplicated on (encoder/decoder/reference tables and sizes, pending size update, set of pairs written non-sensitive, open-block flags). Each WriteField output is parsed by the reference decoder and fed to Decoder.Write immediately. On every sensitive write: the representation is a never-indexed literal (0001xxxx) carrying the pair, the encoder table is unchanged, the decoder emits it once with Sensitive set and its table is unchanged; after every write: every entry of the encoder, decoder and reference tables is a pair that was written non-sensitive at least once, and every indexed representation resolves to such a pair. non-trivial = an applied and compared transition; distinct = distinct (situation, bytes, table) of sensitive writes", depth, strings.Join(labels, " ")))
-		c.Assume("Table-size changes happen between header blocks only; sizes {0,70,4096} (thorough adds 33; encoder-local SetMaxDynamicTableSizeLimit is exercised by C01 only); 5 name/value pairs (static full match, static name match, two pairs sharing a name, a Huffman-coded value; thorough adds the empty pair).")
+		c.Assume("Table-size changes happen between header blocks only; sizes {0,70,4096} (thorough adds 33; encoder-local SetMaxDynamicTableSizeLimit is exercised by C01 only); 5 name/value pairs with a non-empty value (static full match, static name match, two pairs sharing a name, a Huffman-coded value) plus the empty value in every match situation: (k,\"\") written sensitive and not (no match / dynamic name match / dynamic full match), sensitive (cookie,\"\") and (:authority,\"\") (identical static entries, name index >= 15 and < 15), sensitive (:method,\"\") (static name only); thorough adds the empty pair and non-sensitive (cookie,\"\").")
 		c.Assume("Round-trip fidelity of non-sensitive fields is C01's subject and is not judged here.")
 		vx.Seq(c, vx.SeqSpec[*c01State, c01Op]{
 			Part:    "seq",
